@@ -3,8 +3,8 @@ LEVEL = "proof"
 LEAN_MODULES = ["CifModel.Props.C19"]
 REQUIRED = ["CifModel.C19_list_is_sequence", "CifModel.C19_table_is_map", "CifModel.C19_table_invalid_key",
             "CifModel.C19_table_history", "CifModel.C19_packet_is_map", "CifModel.C19_packet_create", "CifModel.C19_wrong_kind",
-            "CifModel.C19_clone_equal", "CifModel.C19_reinit_releases", "CifModel.C19_cex_packet_create_dup",
-            "CifModel.C19_cex_clone_alias",
+            "CifModel.C19_clone_equal", "CifModel.C19_reinit_releases", "CifModel.C19_packet_create_dup", "CifModel.C19_cex_packet_create_dup_pinned",
+            "CifModel.C19_cex_clone_alias_pinned",
             "CifModel.C19_clone_disjoint", "CifModel.C19_put_copies", "CifModel.C19_remove_transfers",
             "CifModel.C19_remove_transfers_entry", "CifModel.C19_reinit_releases_heap", "CifModel.C19_capacity_growth",
             "CifModel.C16_map_heap_safe", "CifModel.C16_map_set_item_heap_safe", "CifModel.C16_map_remove_item_heap_safe",
@@ -32,8 +32,7 @@ PARTIAL = [
     "list set in place, "
     "NOT stated at heap level: cif_packet_create for a whole name list (per name: "
     "packetEntryCreate_spec), cif_map_get_keys (allocates an array of borrowed pointers), convert_to_standalone (unreachable "
-    "through the public API: every map the API hands out is standalone), the aliasing cases of F32 (modelled at the pure "
-    "level only), allocation failures (property C17)",
+    "through the public API: every map the API hands out is standalone), the aliasing cases of cif_value_clone onto a related object (pure level only: C19_clone_onto_repaired), allocation failures (property C17)",
     "the heap model is a model: that value.c / map.c / packet.c follow it is observed by family val under ASan (use-after-free, "
     "double free, invalid free abort the case) and by the leak sweep of C16 over the same request streams",
 ]
